@@ -83,10 +83,6 @@ theorem whitespace_tie : G.whitespaceChars = StrNum.trimChars := by decide
 
 /-- string → number: every conversion trims with `parser.WhitespaceChars` (never `strings.TrimSpace`, e80e384), `radixPrefix`/`stringToInt` decisions (d6061d6, 7637e2e), `ToInteger` (c886782), UTF-16 strings delegate (6010fc8) -/
 theorem strnum_tie : G.facts_strnum = [
-  ("conds:radixPrefix", ["len(ss) > 2 && ss[0] == '0'"]),
-  ("returns:radixPrefix", ["16", "8", "2", "0"]),
-  ("conds:stringToInt", ["ss == \"\"", "base != 0", "ss[2] == '+' || ss[2] == '-'", "err == nil && i == 0 && ss[0] == '-'"]),
-  ("returns:stringToInt", ["0, nil", "0, strconv.ErrSyntax", "strconv.ParseInt(ss[2:], base, 64)", "0, strconv.ErrSyntax", "i, err"]),
   ("trims:trimWhitespace", ["strings.Trim(s, parser.WhitespaceChars)"]),
   ("trims:asciiString.ToNumber", ["trimWhitespace(string(s))"]),
   ("trims:asciiString.ToFloat", ["trimWhitespace(string(s))"]),
@@ -95,6 +91,8 @@ theorem strnum_tie : G.facts_strnum = [
   ("trims:unicodeString.toTrimmedUTF8", ["strings.Trim(s.String(), parser.WhitespaceChars)"]),
   ("trims:importedString.toTrimmedUTF8", ["strings.Trim(i.s, parser.WhitespaceChars)"]),
   ("returns:asciiString.ToInteger", ["0", "math.MaxInt64", "math.MinInt64", "floatToIntClip(f)", "0", "i"]),
+  ("conds:asciiString._toFloat", ["trimmed == \"\"", "trimmed == \"-0\"", "strings.ContainsRune(trimmed, '_')", "base != 0", "digitVal(digits[i]) >= base", "!ok", "len(trimmed) >= 2", "trimmed[0] == '-' || trimmed[0] == '+'", "len(prefix) >= 2 && prefix[0] == '0' && (prefix[1] == 'x' || prefix[1] == 'X')", "err == nil && math.IsInf(f, 0)", "strings.HasPrefix(ss, \"inf\") || strings.HasPrefix(ss, \"-inf\") || strings.HasPrefix(ss, \"+inf\")", "isRangeErr(err)"]),
+  ("returns:asciiString._toFloat", ["0, nil", "-f, nil", "0, strconv.ErrSyntax", "0, strconv.ErrSyntax", "0, strconv.ErrSyntax", "f, nil", "0, strconv.ErrSyntax", "0, strconv.ErrSyntax", "f, err"]),
   ("conds:asciiString.ToFloat", ["ss == \"\"", "ss == \"Infinity\" || ss == \"+Infinity\"", "ss == \"-Infinity\"", "err != nil", "err == nil"]),
   ("returns:asciiString.ToFloat", ["0", "math.Inf(1)", "math.Inf(-1)", "float64(i)", "f"]),
   ("conds:asciiString.ToNumber", ["ss == \"\"", "ss == \"Infinity\" || ss == \"+Infinity\"", "ss == \"-Infinity\"", "err == nil", "err == nil"]),
@@ -115,9 +113,9 @@ theorem mathsign_tie : G.facts_mathsign = [
 ] := by rfl
 
 /-- builtin_global.go `parseInt`: `cutoff = MaxInt64/base + 1`, `maxVal = MaxInt64`, the wrapping updates, -0 and the
-hand-over to `parseLargeInt` — what `ParseInt.loop` transcribes; the three GUARDS of the loop (`n >= cutoff`, `v >= base`,
-`n1 < n || n1 > maxVal`) are translated to Lean and tied in `DecTie.parseIntGuards_tie` -/
+hand-over to `parseLargeInt` — what `ParseInt.loop` transcribes; the sign / `0x`-prefix / base-validation conditions of the part before the loop (which uses `goto`, outside the translatable subset; modelled in `ParseInt.mech`); the three GUARDS of the loop are in addition translated to Lean and tied in `DecTie.parseIntGuards_tie` -/
 theorem parseint_tie : G.facts_parseint = [
+  ("conds:parseInt", ["len(s) < 1", "len(s) < 1", "s[0] == '0' && len(s) > 1 && (s[1] == 'x' || s[1] == 'X')", "base == 0 || base == 16", "len(s) < 3", "n >= cutoff", "v >= base", "n1 < n || n1 > maxVal", "i == 0", "sign", "n == 0"]),
   ("assigns:parseInt", ["cutoff = math.MaxInt64/10 + 1", "cutoff = math.MaxInt64/16 + 1", "cutoff = math.MaxInt64/int64(base) + 1", "maxVal = math.MaxInt64", "n *= int64(base)", "n1 := n + int64(v)", "n = n1", "n = -n"]),
   ("returns:parseInt", ["parseLargeInt(s, base, sign)", "parseLargeInt(s, base, sign)", "_negativeZero, nil", "intToValue(n), nil", "_NaN, err"]),
   ("returns:parseLargeInt", ["_NaN, strconv.ErrSyntax", "valueFloat(n), nil"])
